@@ -1,4 +1,5 @@
 pub mod c09_number;
 pub mod dispatch;
 pub mod prog;
+pub mod relations;
 pub mod step;
